@@ -1,5 +1,6 @@
 import PyPhysim.Proofs.C05Runner
 import PyPhysim.Proofs.C05Grid
+import PyPhysim.Proofs.C05Params
 
 /-!
 # C05 — the Monte Carlo runner runs exactly the requested repetitions per variation
@@ -57,7 +58,8 @@ theorem run_acc_is_merge (merge : R → R → R) (repMax : Nat) (keep : Keep R)
   · simp at h2
   · rename_i r rs hoks
     simp only [Option.some.injEq] at h2
-    refine ⟨seg, r, rs, h1, hoks, ?_, ?_, ?_, ?_, ?_⟩ <;> rw [← h2] <;> simp
+    refine ⟨seg, r, rs, h1, hoks, ?_, ?_, ?_, ?_, ?_⟩
+    all_goals rw [← h2]
     exact oks_length_add_skips seg
 
 /-- The same for a variation resumed from loaded partial results `(a, n)`: the
@@ -103,6 +105,30 @@ theorem run_stops_at_limit_or_rule (merge : R → R → R) (repMax : Nat) (keep 
   rcases hg with hk | hr
   · right; exact hk
   · left; omega
+
+/-- **Progress** (the hypotheses above are satisfiable for every stream that is long
+    enough): a fresh variation whose stream contains at least `rep_max ≥ 1` successful
+    outcomes ends normally — `rep_max` bounds the number of counted repetitions
+    whatever `_keep_going` answers and however many skips are interleaved. -/
+theorem run_terminates_within_limit (merge : R → R → R) (repMax : Nat) (keep : Keep R)
+    (outs : List (Outcome R)) (hmax : 1 ≤ repMax) (hok : repMax ≤ (oks outs).length) :
+    ∃ e, runVariation merge repMax keep none outs = .done e ∧ e.exhausted = false := by
+  cases h : runVariation merge repMax keep none outs with
+  | starved c =>
+    have := (runVariation_starved merge repMax keep none outs c h).2.2
+    rw [this] at hok; simp at hok; omega
+  | done e =>
+    refine ⟨e, rfl, ?_⟩
+    cases hex : e.exhausted with
+    | false => rfl
+    | true =>
+      obtain ⟨seg, r, rs, h1, _, _, hrep, _⟩ := run_acc_is_merge merge repMax keep outs e h
+      obtain ⟨_, _, _, _, _, h5⟩ := runVariation_done merge repMax keep none outs e h
+      obtain ⟨hrest, hg⟩ := h5 hex
+      rw [hrest, List.append_nil] at h1
+      subst h1
+      simp only [guard, Bool.and_eq_true, decide_eq_true_eq] at hg
+      omega
 
 /-- **A skip in the first repetition is retried** (the repaired code; before the
     `fix:` commit the model raised `SkipThisOne` here): after `k` leading skips the
@@ -169,6 +195,18 @@ theorem simulate_all_spec (cfg : Cfg R) (r : Runner R) (outs : List (Outcome R))
     by simpa using hreps, ?_, ?_⟩
   · intro hf; exact h9 hf
   · intro hf; exact h10 hf
+
+/-- One stored result and one `runned_reps` entry per variation: after a completed
+    `simulate()` both lists have exactly `n = Π lengths` entries (what the lookup
+    theorems below assume). -/
+theorem simulate_all_lengths (cfg : Cfg R) (r : Runner R) (outs : List (Outcome R))
+    (h : (simulateAll cfg r outs).status = none) :
+    (simulateAll cfg r outs).runner.results.length = cfg.nvar ∧
+    ∃ l, (simulateAll cfg r outs).runner.reps = .list l ∧ l.length = cfg.nvar := by
+  obtain ⟨segs, sts, h1, _, _, h4, h5, _⟩ := simulate_all_spec cfg r outs h
+  have hl := (RunsSpec_lengths cfg _ _ segs sts h1).2
+  rw [List.length_range] at hl
+  exact ⟨by rw [h4, List.length_map, hl], _, h5, by rw [List.length_map, hl]⟩
 
 /-- **Order of execution**: the log of a completed `simulate()` never goes back to
     an earlier variation and names only variations `< n`. -/
@@ -400,7 +438,85 @@ theorem lookup_no_constraint {V X : Type} [BEq V] (ps : List (Param V)) (results
     resultValues ps results ([] : List (String × V)) = .ok results := by
   simp [resultValues, hne]
 
+/-! ## The parameters object keeps no derived state -/
+
+/-- `add` (or `params[name] = value`) installs the new value — a value list of any
+    other length included — and touches nothing else. -/
+theorem content_after_add (s : PState) (name : String) (v : PVal) :
+    (s.step (.add name v)).2 = none ∧
+    (s.step (.add name v)).1.params.lookup name = some v ∧
+    (∀ m, m ≠ name → (s.step (.add name v)).1.params.lookup m = s.params.lookup m) ∧
+    (s.step (.add name v)).1.unpacked = s.unpacked := by
+  refine ⟨rfl, ?_, ?_, rfl⟩
+  · simp [PState.step, lookup_dictSet]
+  · intro m hm; simp [PState.step, lookup_dictSet, hm]
+
+/-- `remove` of a stored parameter also takes it out of the unpacked set and leaves
+    every other parameter as it was; of an unknown one it raises `KeyError` and
+    changes nothing. -/
+theorem content_after_remove (s : PState) (name : String) (hn : s.unpacked.Nodup) :
+    (s.params.lookup name = none →
+        s.step (.remove name) = (s, some .KeyError)) ∧
+    (s.params.lookup name ≠ none →
+        (s.step (.remove name)).2 = none ∧
+        name ∉ (s.step (.remove name)).1.unpacked ∧
+        (∀ m, m ≠ name → (s.step (.remove name)).1.params.lookup m = s.params.lookup m) ∧
+        (∀ m, m ≠ name → (m ∈ (s.step (.remove name)).1.unpacked ↔ m ∈ s.unpacked))) := by
+  constructor
+  · intro h; simp [PState.step, h]
+  · intro h
+    cases hl : s.params.lookup name with
+    | none => exact absurd hl h
+    | some w =>
+      simp only [PState.step, hl]
+      refine ⟨trivial, ?_, ?_, ?_⟩
+      · exact fun hm => (List.Nodup.mem_erase_iff hn).mp hm |>.1 rfl
+      · intro m hm; exact lookup_dictDel_ne name m hm s.params
+      · intro m hm; exact List.mem_erase_of_ne hm
+
+/-- The unpacked set of every object reachable by any history of calls is
+    duplicate-free (it is a set). -/
+theorem params_reachable_wf (ops : List POp) : (PState.empty.run ops).unpacked.Nodup :=
+  run_unpacked_nodup ops PState.empty (by simp [PState.empty])
+
+/-- **No stale derived state.**  Whatever histories of `add` / replace / `remove` /
+    `set_unpack_parameter` calls (failed ones included) produced two parameter
+    objects, if they now store the same thing — same dictionary, same unpacked set —
+    then every look-up agrees on them: number of variations, the list of
+    combinations, `get_pack_indexes(fixed)` and `get_result_values_list(name, fixed)`
+    for every `fixed` and every stored results list.  In particular a look-up after
+    any history equals the look-up on a freshly built object with the current
+    content (take for `ops'` any sequence of calls that builds it). -/
+theorem lookup_no_stale_state {X : Type} (ops ops' : List POp)
+    (hc : SameContent (PState.empty.run ops) (PState.empty.run ops'))
+    (results : List X) (fixed : List (String × Int)) :
+    (PState.empty.run ops).lookup results fixed = (PState.empty.run ops').lookup results fixed :=
+  lookup_sameContent _ _ (params_reachable_wf ops) (params_reachable_wf ops') hc results fixed
+
+/-- The same for arbitrary (not necessarily reachable) objects with duplicate-free sets. -/
+theorem lookup_depends_only_on_content {X : Type} (s s' : PState) (hn : s.unpacked.Nodup)
+    (hn' : s'.unpacked.Nodup) (hc : SameContent s s') (results : List X)
+    (fixed : List (String × Int)) :
+    s.lookup results fixed = s'.lookup results fixed :=
+  lookup_sameContent s s' hn hn' hc results fixed
+
 /-! ## Non-vacuity: the hypotheses are satisfiable by non-trivial values -/
+
+/-- two different histories with the same final content: one replaces the value list
+    of `a` by a list of another length, removes and re-adds `b`, fails twice on the
+    way; the other builds the object directly, in another order -/
+example :
+    let h1 : List POp := [.add "a" (.list [1, 2]), .add "b" (.list [5]), .setUnpack "a" true,
+      .setUnpack "zz" true, .add "a" (.list [7, 8, 9]), .remove "b", .remove "b",
+      .add "b" (.list [3, 4]), .setUnpack "b" true, .add "c" (.scalar 0)]
+    let h2 : List POp := [.add "c" (.scalar 0), .add "b" (.list [3, 4]), .add "a" (.list [7, 8, 9]),
+      .setUnpack "b" true, .setUnpack "a" true]
+    ((PState.empty.run h1).params, (PState.empty.run h1).unpacked,
+      (PState.empty.run h2).params, (PState.empty.run h2).unpacked)
+    = ([("a", .list [7, 8, 9]), ("b", .list [3, 4]), ("c", .scalar 0)], ["b", "a"],
+       [("c", .scalar 0), ("b", .list [3, 4]), ("a", .list [7, 8, 9])], ["a", "b"]) := by
+  decide
+
 
 /-- a variation with a skip in the first repetition, a stop rule that fires before
     the limit (`sum < 5`), and a left-over stream -/
